@@ -17,7 +17,7 @@ import zlib
 
 from vf import iso
 from vf.c13_zygote import Zygote
-from vf.c13_case import CALLS, api_name
+from vf.c13_case import CALLS, PRE_ACTIONS, api_name
 
 META = dict(
     title="blocking calls return once the connection ends",
@@ -71,6 +71,7 @@ PROXY_EXITS = ["usr1", "kill", "tcp_close", "term"]
 TIMINGS = ["before", "during", "after"]
 CHANNEL_REQUESTS = ["exec_command", "invoke_shell", "get_pty", "invoke_subsystem", "request_x11"]
 GARBAGE = ["bad_mac", "unknown_channel", "disconnect"]
+READING_CALLS = ["recv", "recv_stderr", "recv_exit_status", "file_read", "sftp_stat"]
 
 
 def shards(tier):
@@ -156,6 +157,15 @@ def quick_cases(ctx, calls):
         if call in ("recv", "recv_exit_status", "accept", "exec_command", "global_request", "sftp_stat"):
             out.append(mk(call, "send_fails_first", "global_request", "before"))
         out.extend(pinned(call, ctx.seed, ci))
+        if call in READING_CALLS:
+            # a local action on the channel precedes the loss; two cells per (action, call): the reader parked
+            # before the loss, and the read made after / while the loss (loss kind rotating with the seed)
+            for pi, pre in enumerate(PRE_ACTIONS):
+                l1 = ["peer_close", "link_eof", "local_close", "link_abrupt"][(ci + pi + ctx.seed) % 4]
+                l2 = ["local_close", "peer_close", "link_eof", "link_abrupt"][(ci + pi + ctx.seed) % 4]
+                out.append(mk(call, l1, None, "before", pre=pre))
+                out.append(mk(call, l2, None, ["after", "during"][(ci + pi + ctx.seed) % 2], pre=pre,
+                              f=round(rng.random(), 3)))
         if len(spec["roles"]) > 1:
             out.append(mk(call, ["peer_close", "local_close", "link_eof"][(ci + ctx.seed) % 3], None,
                           TIMINGS[(ci + ctx.seed) % 3], role=spec["roles"][1], f=f))
@@ -195,6 +205,15 @@ def thorough_extra(ctx, calls):
         for loss, var in (("local_close", None), ("peer_close", None), ("garbage", "bad_mac")):
             for timing in ("before", "after"):
                 out.append(mk(call, loss, var, timing, medium="proxy"))
+        if call in READING_CALLS:
+            for role in spec["roles"]:
+                for pre in PRE_ACTIONS:
+                    for loss in ("peer_close", "link_eof", "link_abrupt", "local_close"):
+                        for timing in ("before", "after"):
+                            out.append(mk(call, loss, None, timing, role=role, pre=pre))
+                    out.append(mk(call, "proxy_exit", "kill", "before", medium="proxy", pre=pre))
+                    out.append(mk(call, "garbage", "bad_mac", "before", role=role, pre=pre))
+                    out.append(mk(call, "send_fails_first", "global_request", "before", role=role, pre=pre))
         if spec.get("tmo"):
             for loss, var in (("peer_close", None), ("local_close", None), ("link_abrupt", None)):
                 out.append(mk(call, loss, var, "before", tmo=2.0))
@@ -298,13 +317,17 @@ def judge(ctx, a, res, sample=False):
     if a["timing"] == "during" and not v.get("k_reached"):
         nontrivial = False
     desc = dict(call=call, api=precise_api, role=a["role"], medium=a["medium"], loss=a["loss"], variant=a["variant"],
-                timing=a["timing"], k=v.get("k"), k_where=v.get("k_where"), tmo=a.get("tmo"), verdict=verdict,
+                pre=a.get("pre"), timing=a["timing"], k=v.get("k"), k_where=v.get("k_where"), tmo=a.get("tmo"), verdict=verdict,
                 callers=v.get("callers"), active_after=v.get("active"))
     ctx.case(fp(a), sample=desc if sample else None, nontrivial=nontrivial)
     ctx.count("cases_run")
     ctx.count("loss_" + a["loss"])
     ctx.count("timing_" + a["timing"])
     ctx.count("medium_" + a["medium"])
+    pre = a.get("pre")
+    if pre:
+        ctx.count("pre_" + pre)
+        ctx.count("cell_%s__%s" % (pre, call))
     ctx.count("tap_messages_seen", v.get("msgs_total") or v.get("msgs_before") or 0)
     if v.get("relay_gone"):
         ctx.count("relay_process_exits_observed")
@@ -321,13 +344,17 @@ def judge(ctx, a, res, sample=False):
         "api", "verdict", "window", "active", "drained", "callers", "blocked", "vthread", "pthread",
         "k", "k_where", "k_reached", "relay_gone", "v_exception", "call_made", "v_tail", "crashes", "link_log", "msgs_total", "phases", "inject_error", "writer")})
     if verdict == "ok":
+        if pre:
+            ctx.count("pre_%s_calls_completed" % pre, len(v.get("callers") or []))
         ctx.count("transport_inactive_after_loss")
         for c in v.get("callers") or []:
             ctx.count("calls_returned" if c.get("outcome") == "return" else "calls_raised")
             ctx.count("calls_completed_after_loss")
         return
     if verdict == "premature":
-        if a.get("tmo") is None:
+        if pre and v.get("parked_after_pre") == "premature":
+            ctx.count("pre_action_itself_ended_the_call")
+        elif a.get("tmo") is None:
             ctx.inconclusive("case %s: the call came back before the loss was injected: %s" % (a, v.get("callers")))
         else:
             ctx.count("timeout_expired_before_loss")
@@ -385,9 +412,12 @@ def judge(ctx, a, res, sample=False):
                 who += " (one of %d waiters woken, the rest not)" % ncall
             if verdict == "spinning":
                 where = "+".join((v.get("window") or {}).get("spin_states") or [where])
+            when = TIMING_TEXT[a["timing"]]
+            if pre:
+                when += ", local %s before the loss" % pre
             ctx.violation(
                 "%s %s in %s after transport death (%s)" % (
-                    who, "blocked" if verdict == "blocked" else "livelocked", where, TIMING_TEXT[a["timing"]]),
+                    who, "blocked" if verdict == "blocked" else "livelocked", where, when),
                 "the transport is inactive, the link drained, every other thread parked, and the call has not "
                 "returned for %ss with an unchanged stack" % (v.get("window") or {}).get("span"),
                 witness)
@@ -407,9 +437,9 @@ def run_batch(ctx, cases, workers, window, stop_at=None, samples_wanted=0):
         z = STATE.get("zygote")
         t0 = time.time()
         if z is not None and not z.dead:
-            res = z.call("vf.c13_case:run_case", a, timeout=6 * window + 90)
+            res = z.call("vf.c13_case:run_case", a, timeout=6 * window + 240)
         else:
-            res = iso.call("vf.c13_case:run_case", a, timeout=6 * window + 90)
+            res = iso.call("vf.c13_case:run_case", a, timeout=6 * window + 240)
         res["wall"] = round(time.time() - t0, 2)
         return a, res
 
@@ -506,6 +536,9 @@ def _run(ctx):
         for l in ("peer_close", "link_eof", "link_abrupt", "local_close", "garbage", "proxy_exit", "send_fails_first"):
             ctx.require("loss_" + l, len(names) - 4)
         ctx.require("failed_user_writes_observed", len(names) - 8)
+        for pre in PRE_ACTIONS:
+            ctx.require("pre_" + pre, 2 * len(READING_CALLS) - 2)
+            ctx.require("pre_%s_calls_completed" % pre, len(READING_CALLS))
         return
     stop_at = ctx.t0 + 450
     base = [dict(c, count_lines=True) if c["timing"] == "before" else c for c in thorough_base(ctx, calls)]
